@@ -16,6 +16,7 @@ RULE = (
     "into the history. Oracle: shape == (batch_size, dims) and every coordinate == some element of its axis grid. "
     "Non-trivial = the space has an axis whose grid is not exactly lower+k*precision ending on the upper bound; distinct "
     "by (sampler descriptor, space descriptor, history hash)."
+    ' One space in ten has 2-4 parameters far from the origin whose equal-length grids are shifted by a fraction of a step; every second re-use of a sampler object on a second space changes the dimension (down to one parameter, or up), and a history-free sampler refusing a space is a violation.'
 )
 ASSUMPTIONS = [
     "an exception or a >90 s stall inside a third-party estimator/optimizer on a generated history is 'no batch' (counted rejected), not a violation",
